@@ -8,23 +8,59 @@ package collector
 // Every hit is fed to the aggregation bucket, on every path that does not fail, before and
 // independently of the paging key, the "lowest match outside the results" shortcut and the store.
 //@ func TopNCollector.collectSingle
+//@   props C16 C09
 //@   requires hc != nil && d != nil
 //@   ensures [fed-on-every-path] result == nil ==> (fedCount == old(fedCount) + 1 && lastFed == d)
 //@   ensures [at-most-once] fedCount <= old(fedCount) + 1
+//@   requires {C09} [lowest-bounds-the-store] hc.lowestMatchOutsideResults != nil ==> (storeBound[iref(hc.store)] != nil && cmp(storeBound[iref(hc.store)], hc.lowestMatchOutsideResults) <= 0 && storeLen[iref(hc.store)] >= hc.size + hc.skip)
+//@   requires {C09} hc.store != nil && hc.size >= 0 && hc.skip >= 0
+//@   at call AddNotExceedingSize: assert {C09} [store-holds-size-plus-skip] size == hc.size + hc.skip
+//@   ensures {C09} [search-after-key-and-earlier-are-never-stored] (hc.searchAfter != nil && cmp(d, hc.searchAfter) <= 0) ==> storeAdds == old(storeAdds)
+//@   ensures {C09} [a-hit-is-stored-unless-paged-away-or-beaten] result == nil ==> (storeAdds == old(storeAdds) + 1 || (hc.searchAfter != nil && cmp(d, hc.searchAfter) <= 0) || (old(hc.lowestMatchOutsideResults) != nil && cmp(d, old(hc.lowestMatchOutsideResults)) >= 0))
+//@   ensures {C09} [the-shortcut-drops-only-hits-that-cannot-enter-a-full-store] (result == nil && storeAdds == old(storeAdds) && !(hc.searchAfter != nil && cmp(d, hc.searchAfter) <= 0)) ==> (storeLen[iref(hc.store)] >= hc.size + hc.skip && cmp(storeBound[iref(hc.store)], d) <= 0)
+//@   ensures {C09} [lowest-bounds-the-store] (result == nil && hc.lowestMatchOutsideResults != nil) ==> (storeBound[iref(hc.store)] != nil && cmp(storeBound[iref(hc.store)], hc.lowestMatchOutsideResults) <= 0 && storeLen[iref(hc.store)] >= hc.size + hc.skip)
 
 // Collect: when it succeeds, the bucket has been fed exactly the hits the searcher returned.
 //@ func TopNCollector.Collect
-//@   requires hc != nil
+//@   props C16 C09
+//@   requires hc != nil && hc.store != nil
+//@   requires {C09} hc.size >= 0 && hc.skip >= 0
+//@   requires {C09} [lowest-bounds-the-store] hc.lowestMatchOutsideResults != nil ==> (storeBound[iref(hc.store)] != nil && cmp(storeBound[iref(hc.store)], hc.lowestMatchOutsideResults) <= 0 && storeLen[iref(hc.store)] >= hc.size + hc.skip)
 //@   exit [all-hits-fed] (result1 == nil && result0 != nil) ==> fedCount - old(fedCount) == hitsSeen - old(hitsSeen)
 //@   loop 1
 //@     invariant fedCount == old(fedCount) + hitNumber
 //@     invariant hitsSeen == old(hitsSeen) + hitNumber + ite(next != nil && err == nil, 1, 0)
+//@     invariant hc.store == old(hc.store) && hc.store != nil
+//@     invariant {C09} hc.size == old(hc.size) && hc.skip == old(hc.skip)
+//@     invariant {C09} [lowest-bounds-the-store] hc.lowestMatchOutsideResults != nil ==> (storeBound[iref(hc.store)] != nil && cmp(storeBound[iref(hc.store)], hc.lowestMatchOutsideResults) <= 0 && storeLen[iref(hc.store)] >= hc.size + hc.skip)
 
 // the all-hits iterator: a hit is handed out only after it was fed to the bucket; nothing else is fed
 //@ func AllIterator.Next
 //@   requires a != nil
 //@   ensures [hit-returned-is-fed] (next != nil && err == nil) ==> (fedCount == old(fedCount) + 1 && lastFed == next)
 //@   ensures [nothing-fed-otherwise] !(next != nil && err == nil) ==> fedCount == old(fedCount)
+
+// ---------------------------------------------------------------------------
+// C09: what the collector does with its store
+// ---------------------------------------------------------------------------
+// Abstract view of a store (either implementation): storeLen[s] entries, every one of them ranks no
+// later than storeBound[s] (nil when empty); storeAdds counts calls of AddNotExceedingSize.
+// The interface contract below is the abstraction of the clauses PROVED for both implementations
+// (grows-until-full, evicts-when-full, evicted-is-worst); the refinement step itself is not machine-checked.
+//@ ghost var storeAdds int
+//@ ghost var storeLen map[ref]int
+//@ ghost var storeBound map[ref]ref
+
+//@ func collectorStore.AddNotExceedingSize(recv, doc, size) (r)
+//@   interface
+//@   props C09
+//@   modifies storeAdds, storeLen, storeBound
+//@   effect storeAdds == old(storeAdds) + 1
+//@   effect old(storeLen)[iref(recv)] < size ==> (r == nil && storeLen[iref(recv)] == old(storeLen)[iref(recv)] + 1)
+//@   effect old(storeLen)[iref(recv)] >= size ==> (r != nil && storeLen[iref(recv)] == old(storeLen)[iref(recv)])
+//@   effect r != nil ==> (storeBound[iref(recv)] == r && (r == doc || (old(storeBound)[iref(recv)] != nil && cmp(r, old(storeBound)[iref(recv)]) <= 0)))
+//@   effect r == nil ==> storeBound[iref(recv)] == ite(old(storeBound)[iref(recv)] == nil || cmp(old(storeBound)[iref(recv)], doc) <= 0, doc, old(storeBound)[iref(recv)])
+//@   effect forall x ref :: x != iref(recv) ==> (storeLen[x] == old(storeLen)[x] && storeBound[x] == old(storeBound)[x])
 
 // ---------------------------------------------------------------------------
 // C09: the small (slice) store keeps the hits sorted by the collector's order
@@ -217,3 +253,30 @@ package collector
 //@     invariant len(c.heap) == skip + i + 1 && base(c.heap) == old(base(c.heap))
 //@     invariant forall p int, q int :: (i < p && p <= q && q < size) ==> cmp(rv[p], rv[q]) <= 0
 //@     invariant forall j int, p int :: (0 <= j && j < len(c.heap) && i < p && p < size) ==> cmp(c.heap[j], rv[p]) <= 0
+
+// ---------------------------------------------------------------------------
+// C09: the page handed out is the store's page, reversed for search-before
+// ---------------------------------------------------------------------------
+// finalElems / finalLen: ghost copy of the page the store returned from Final
+//@ ghost var finalElems map[int]ref
+//@ ghost var finalLen int
+
+//@ func collectorStore.Final(recv, skip, fixup) (r, err)
+//@   interface
+//@   props C09
+//@   modifies finalElems, finalLen
+//@   effect finalLen == len(r) && (forall k int :: (0 <= k && k < len(r)) ==> finalElems[k] == r[k])
+
+//@ func TopNCollector.finalizeResults() (err)
+//@   props C09
+//@   nopanic nonil
+//@   requires hc != nil && hc.store != nil
+//@   modifies *
+//@   at call Final: assert [the-offset-is-skipped] skip == hc.skip
+//@   ensures [page-length] len(hc.results) == finalLen
+//@   ensures [page-as-ranked] !hc.reverse ==> (forall k int :: (0 <= k && k < finalLen) ==> hc.results[k] == finalElems[k])
+//@   ensures [search-before-page-is-reversed] hc.reverse ==> (forall k int :: (0 <= k && k < finalLen) ==> hc.results[k] == finalElems[finalLen - 1 - k])
+//@   loop 1
+//@     invariant 0 <= i && j == len(hc.results) - 1 - i && i <= j + 1 && len(hc.results) == finalLen && hc.reverse
+//@     invariant forall k int :: (0 <= k && k < i) ==> (hc.results[k] == finalElems[finalLen - 1 - k] && hc.results[finalLen - 1 - k] == finalElems[k])
+//@     invariant forall k int :: (i <= k && k <= j) ==> hc.results[k] == finalElems[k]
